@@ -17,6 +17,7 @@ EXPLANATION = (
     "the closure snapshot, and captured values enter the AST only as ast.Constant / as_literal nodes or freshly parsed lambdas; (R4) "
     "check_ast is applied to the emitted lambda before node construction in the three operators; (R5) g_legal_capture_types holds only "
     "immutable scalar types; (R6) where module globals and closure variables are merged, closure variables are the last writer (LEGB)."
+    " In R1 the first iterable of a comprehension is rewritten *before* its loop variables are hidden (python evaluates it in the enclosing scope), every iterable exactly once."
 )
 NOT_DECIDED = "faithful rendering of every python value (C13) and the behaviour of inspect.getclosurevars (trusted stdlib)."
 
